@@ -92,8 +92,8 @@ fn main() {
             seed
         };
         let mut best: Option<(Vec<Option<u64>>, usize)> = None;
-        for _ in 0..20000 {
-            let n = 2 + (next() % 7) as usize;
+        for _ in 0..600 {
+            let n = 40 + (next() % 60) as usize;
             let vals: Vec<Option<u64>> = (0..n).map(|_| if next() % 5 == 0 { None } else { Some(alpha[(next() % 4) as usize]) }).collect();
             for at in 0..=n {
                 let v2 = vals.clone();
@@ -108,6 +108,90 @@ fn main() {
             }
         }
         println!("smallest panicking case: {:?}", best);
+    }
+
+    if on("delta-shrink") {
+        let full: Vec<Option<u64>> = vec![Some(0u64), Some(4u64), Some(3u64), Some(4611686018427387903u64), Some(7u64), Some(9223372036854775806u64), Some(3u64), Some(6u64), Some(4611686018427387904u64), Some(1632662218397369444u64), Some(1u64), Some(1u64), Some(4611686018427387904u64), Some(3u64), Some(64u64), Some(9223372036854775806u64), Some(2147483647u64), Some(6u64), Some(16383u64), Some(256u64), Some(4294967296u64), Some(1u64), Some(3973224576884726264u64), Some(127u64), Some(1u64), Some(6198161767464237415u64), Some(3u64), Some(6u64), Some(4611686018427387904u64), Some(6u64), Some(1u64), Some(8132346378553852765u64), Some(9007199254740992u64), Some(0u64), Some(4641474873157260942u64), Some(9007199254740992u64), Some(0u64), Some(0u64), Some(3u64), Some(9007199254740992u64), Some(1u64), Some(2u64), Some(1u64), Some(8359982347384301501u64), Some(4480925652712734906u64), Some(385568741865093212u64), Some(0u64), Some(6u64), Some(4u64), Some(2489097267193589113u64), Some(1u64), Some(16384u64), Some(1u64), Some(2131124130305473458u64), Some(16383u64), Some(2453632991289614658u64), Some(6u64), Some(16383u64), Some(3u64), Some(255u64), Some(4611686018427387904u64), Some(2880800955260339988u64), Some(6692487009359824069u64), Some(4611686018427387904u64), Some(6176888776604473815u64), None, None, None, None, None, Some(6418686399986264926u64), None, Some(5530134155715351641u64), Some(832152211873235646u64), Some(6u64), Some(6u64), Some(255u64), Some(4294967296u64), Some(0u64), Some(4611686018427387904u64), Some(2u64), Some(6u64), Some(0u64), Some(255u64), Some(5117972033805552764u64), Some(2123847772141654748u64), Some(2328681634648742519u64), Some(5011886033669504493u64), Some(4294967296u64), Some(0u64)];
+        let fails = |vals: &Vec<Option<u64>>, at: usize| -> bool {
+            let v2 = vals.clone();
+            std::panic::catch_unwind(move || {
+                let mut c = DeltaColumn::<Option<u64>>::with_max_segments(2);
+                c.splice(0, 0, v2);
+                c.insert(at, None);
+            })
+            .is_err()
+        };
+        let mut cur = full.clone();
+        let mut at = 23usize;
+        println!("full fails: {}", fails(&cur, at));
+        let mut progress = true;
+        while progress {
+            progress = false;
+            let mut i = 0;
+            while i < cur.len() {
+                let mut t = cur.clone();
+                t.remove(i);
+                let at2 = if i < at { at - 1 } else { at };
+                if at2 <= t.len() && fails(&t, at2) {
+                    cur = t;
+                    at = at2;
+                    progress = true;
+                } else {
+                    i += 1;
+                }
+            }
+        }
+        println!("shrunk: insert({at}, None) into {:?}", cur);
+    }
+
+    if on("delta-alt") {
+        // alternate 0 and 2^63-2 (both inside [0, 2^63)), tiny slabs
+        let hi = i64::MAX as u64 - 1;
+        'outer: for n in 2..200usize {
+            for at in 0..=n {
+                let r = std::panic::catch_unwind(move || {
+                    let mut c = DeltaColumn::<u64>::with_max_segments(2);
+                    c.splice(0, 0, (0..n).map(|i| if i % 2 == 0 { hi } else { 0 }));
+                    c.insert(at, hi);
+                });
+                if r.is_err() {
+                    println!("DeltaColumn<u64> max_segments=2, {n} values alternating 2^63-2 / 0: insert({at}, 2^63-2) panics");
+                    break 'outer;
+                }
+            }
+        }
+        for ms in [2usize, 3, 4, 8, 64] {
+            let mut found = None;
+            'o2: for n in 2..400usize {
+                for at in 0..=n {
+                    let r = std::panic::catch_unwind(move || {
+                        let mut c = DeltaColumn::<u64>::with_max_segments(ms);
+                        c.splice(0, 0, (0..n).map(|i| if i % 2 == 0 { hi } else { 0 }));
+                        c.remove(at.min(n - 1));
+                    });
+                    if r.is_err() {
+                        found = Some((n, at));
+                        break 'o2;
+                    }
+                }
+            }
+            println!("max_segments={ms}: first failing (n, remove at) = {found:?}");
+        }
+    }
+
+    if on("delta-default") {
+        let hi = i64::MAX as u64 - 1;
+        let _ = try_("DeltaColumn<u64> default max_segments: 65 alternating values, remove(63)", move || {
+            let mut c = DeltaColumn::<u64>::from_values((0..65usize).map(|i| if i % 2 == 0 { hi } else { 0 }).collect());
+            c.remove(63);
+            c.to_vec().len()
+        });
+        let _ = try_("DeltaColumn<u64> max_segments=8: 9 alternating values, remove(7)", move || {
+            let mut c = DeltaColumn::<u64>::with_max_segments(8);
+            c.splice(0, 0, (0..9usize).map(|i| if i % 2 == 0 { hi } else { 0 }));
+            c.remove(7);
+            c.to_vec().len()
+        });
     }
     if on("prefix") {
         let col = PrefixColumn::<u32>::from_values(vec![5, 3, 7, 2]);
